@@ -69,4 +69,61 @@ def serverAccepts (m : Mode) (o : ClientOffer) : Bool :=
 def outcome (tls13 : Bool) (ca sa : Bool) : Bool × Bool :=
   (ca && (tls13 || sa), sa && ca)
 
+/-! ## Resumption: a second connection through a session cache / with a session ticket
+
+`loadSession` (tls/handshake_client.go) decides whether a verifying configuration may offer a cached session; once the
+server accepts the ticket / PSK the client does not look at certificates again.  The server re-runs
+`processCertsFromClient` on the certificates stored in the ticket (`doResumeHandshake`, TLS 1.3 `checkForResumption`). -/
+
+/-- the server's certificate relative to ONE client configuration -/
+structure ChainFacts where
+  trusted : Bool      -- the issuer chains to this configuration's RootCAs
+  fresh : Bool        -- this configuration's time lies in the leaf's validity period
+  named : Bool        -- the leaf lists this configuration's ServerName
+  deriving Repr, DecidableEq
+
+def ChainFacts.chainOK (f : ChainFacts) : Bool := f.trusted && f.fresh && f.named
+
+/-- `ClientSessionState`, as far as the guard of `loadSession` reads it -/
+structure Session where
+  hasVerifiedChains : Bool      -- `len(session.verifiedChains) != 0`
+  deriving Repr, DecidableEq
+
+/-- The session stored by a completed connection: `verifyServerCertificate` keeps the chains built by `Verify` for the
+    roots and time of THAT configuration — also under InsecureSkipVerify, and whatever the name check said
+    (`ValidateWithStupidDetail` returns the chains together with the host-name error). -/
+def sessionOf (first : ChainFacts) : Session := ⟨first.trusted && first.fresh⟩
+
+/-- the guard in `loadSession`: `if !InsecureSkipVerify { verifiedChains empty → no; leaf expired → no; VerifyHostname → no }` -/
+def sessionUsable (skip : Bool) (s : Session) (notExpired named : Bool) : Bool :=
+  if !skip then
+    if !s.hasVerifiedChains then false
+    else if !notExpired then false
+    else if !named then false
+    else true
+  else true
+
+/-- second connection of a client whose cache holds `cached` (the server accepts its own ticket): resumed without any
+    certificate check when the guard lets the session through, a full handshake otherwise -/
+def clientAcceptsWithCache (skip : Bool) (kex : Kex) (cached : Option Session) (f : ChainFacts) (c : ServerCred) : Bool :=
+  match cached with
+  | some s => if sessionUsable skip s f.fresh f.named then true else clientAccepts skip kex c
+  | none => clientAccepts skip kex c
+
+/-- server side, `checkForResumption`: a ticket is not resumed when certificates are required but the session has none,
+    nor when the session has some but none are requested now -/
+def serverResumes (m : Mode) (sessHasCert : Bool) : Bool :=
+  if requiresClientCert m && !sessHasCert then false
+  else if sessHasCert && m.toNat == 0 then false
+  else true
+
+/-- second connection of a server presented with its own ticket (`sess = some hasCert`): on resumption
+    `processCertsFromClient` runs on the stored certificates under the CURRENT configuration (`chainOKnow`); there is no
+    CertificateVerify, and a failure aborts the handshake (no fall-back) -/
+def serverAcceptsWithTicket (m : Mode) (sess : Option Bool) (chainOKnow : Bool) (o : ClientOffer) : Bool :=
+  match sess with
+  | some sessHasCert =>
+    if serverResumes m sessHasCert then serverAccepts m ⟨sessHasCert, chainOKnow, true⟩ else serverAccepts m o
+  | none => serverAccepts m o
+
 end ZV.C27
